@@ -5,6 +5,7 @@ import (
 	"go/ast"
 	"go/build"
 	"go/parser"
+	"go/printer"
 	"go/token"
 	"path/filepath"
 	"sort"
@@ -32,6 +33,8 @@ func GlobalsLean(repo string) (string, error) {
 		path  string
 		files []*ast.File
 		vars  map[string]bool
+		decl  map[string]string // variable -> "type = initialiser" as written (initialiser cut at the first '{' or '(' content)
+		mut   map[string]bool   // declared as / initialised by something that can hold shared mutable state
 	}
 	pkgs := map[string]*pkg{}
 	var load func(rel string) error
@@ -44,7 +47,7 @@ func GlobalsLean(repo string) (string, error) {
 		if err != nil {
 			return fmt.Errorf("%s: %v", rel, err)
 		}
-		p := &pkg{path: rel, vars: map[string]bool{}}
+		p := &pkg{path: rel, vars: map[string]bool{}, decl: map[string]string{}, mut: map[string]bool{}}
 		pkgs[rel] = p
 		for _, f := range bp.GoFiles {
 			af, err := parser.ParseFile(fset, filepath.Join(dir, f), nil, 0)
@@ -55,10 +58,20 @@ func GlobalsLean(repo string) (string, error) {
 			for _, d := range af.Decls {
 				if gd, ok := d.(*ast.GenDecl); ok && gd.Tok == token.VAR {
 					for _, s := range gd.Specs {
-						for _, n := range s.(*ast.ValueSpec).Names {
-							if n.Name != "_" {
-								p.vars[n.Name] = true
+						vs := s.(*ast.ValueSpec)
+						for i, n := range vs.Names {
+							if n.Name == "_" {
+								continue
 							}
+							p.vars[n.Name] = true
+							var val ast.Expr
+							if i < len(vs.Values) {
+								val = vs.Values[i]
+							} else if len(vs.Values) == 1 {
+								val = vs.Values[0]
+							}
+							p.decl[n.Name] = declText(fset, vs.Type, val)
+							p.mut[n.Name] = mutableDecl(vs.Type, val)
 						}
 					}
 				}
@@ -77,7 +90,7 @@ func GlobalsLean(repo string) (string, error) {
 		return "", err
 	}
 	type site struct{ v, kind, pos, fn string }
-	var sites, calls []site
+	var sites, calls, uses []site
 	for _, p := range pkgs {
 		for _, f := range p.files {
 			// import name -> module-relative package path
@@ -180,6 +193,68 @@ func GlobalsLean(repo string) (string, error) {
 					rel, _ := filepath.Rel(repo, ps.Filename)
 					sites = append(sites, site{v, k, fmt.Sprintf("%s:%d", rel, ps.Line), fn})
 				}
+				// every occurrence of a package-level variable that can hold shared mutable state,
+				// classified by its syntactic context
+				var stack []ast.Node
+				ast.Inspect(fd.Body, func(n ast.Node) bool {
+					if n == nil {
+						stack = stack[:len(stack)-1]
+						return true
+					}
+					stack = append(stack, n)
+					var v string
+					switch x := n.(type) {
+					case *ast.Ident:
+						if isGlobal(x) && p.mut[x.Name] {
+							v = p.path + "." + x.Name
+						}
+					case *ast.SelectorExpr:
+						if id, ok := x.X.(*ast.Ident); ok && id.Obj == nil && !p.vars[id.Name] {
+							if rel, ok := imports[id.Name]; ok {
+								if q := pkgs[rel]; q != nil && q.vars[x.Sel.Name] && q.mut[x.Sel.Name] {
+									v = rel + "." + x.Sel.Name
+								}
+							}
+						}
+					}
+					if v == "" {
+						return true
+					}
+					kind := "value" // assigned, passed, returned, stored, compared: the variable (or a copy sharing its maps) escapes
+					if len(stack) >= 2 {
+						switch par := stack[len(stack)-2].(type) {
+						case *ast.SelectorExpr:
+							if par.X == n {
+								kind = "field-or-method"
+								if len(stack) >= 3 {
+									if c, ok := stack[len(stack)-3].(*ast.CallExpr); ok && c.Fun == par {
+										kind = "" // listed in methodCalls
+									}
+								}
+							} else {
+								return true // the Sel of pkg.Var: handled at the SelectorExpr
+							}
+						case *ast.IndexExpr:
+							if par.X == n {
+								kind = "index"
+							}
+						case *ast.RangeStmt:
+							if par.X == n {
+								kind = "range"
+							}
+						case *ast.CallExpr:
+							if id, ok := par.Fun.(*ast.Ident); ok && (id.Name == "len" || id.Name == "cap") && id.Obj == nil {
+								kind = ""
+							}
+						}
+					}
+					if kind != "" {
+						ps := fset.Position(n.Pos())
+						rel, _ := filepath.Rel(repo, ps.Filename)
+						uses = append(uses, site{v + " " + kind, kind, fmt.Sprintf("%s:%d", rel, ps.Line), fn})
+					}
+					return true
+				})
 				ast.Inspect(fd.Body, func(n ast.Node) bool {
 					switch x := n.(type) {
 					case *ast.AssignStmt:
@@ -258,6 +333,20 @@ func GlobalsLean(repo string) (string, error) {
 			cnames = append(cnames, s.v)
 		}
 	}
+	sort.Slice(uses, func(i, j int) bool {
+		if uses[i].v != uses[j].v {
+			return uses[i].v < uses[j].v
+		}
+		return uses[i].pos < uses[j].pos
+	})
+	b.WriteString("\n   uses of package-level variables that can hold shared mutable state:\n")
+	var unames []string
+	for _, s := range uses {
+		fmt.Fprintf(&b, "     %-60s %s (%s)\n", s.v, s.pos, s.fn)
+		if len(unames) == 0 || unames[len(unames)-1] != s.v {
+			unames = append(unames, s.v)
+		}
+	}
 	b.WriteString("-/\nnamespace WR.Gen.C15Globals\n\n")
 	b.WriteString("def packages : List String := [")
 	for i, k := range pk {
@@ -266,12 +355,18 @@ func GlobalsLean(repo string) (string, error) {
 		}
 		fmt.Fprintf(&b, "%q", k)
 	}
-	b.WriteString("]\n\ndef written : List String := [")
+	b.WriteString("]\n\n/-- variables written outside init(), with their declaration as written in the source -/\ndef written : List (String × String) := [")
 	for i, n := range names {
 		if i > 0 {
 			b.WriteString(",")
 		}
-		fmt.Fprintf(&b, "\n  %q", n)
+		d := ""
+		if k := strings.LastIndex(n, "."); k >= 0 {
+			if q := pkgs[n[:k]]; q != nil {
+				d = q.decl[n[k+1:]]
+			}
+		}
+		fmt.Fprintf(&b, "\n  (%q, %q)", n, d)
 	}
 	b.WriteString("]\n\n/-- `pkg.Var.Method`: methods called (outside init) on package-level variables -/\ndef methodCalls : List String := [")
 	for i, n := range cnames {
@@ -280,6 +375,65 @@ func GlobalsLean(repo string) (string, error) {
 		}
 		fmt.Fprintf(&b, "\n  %q", n)
 	}
+	b.WriteString("]\n\n/-- `pkg.Var kind`: how the package-level variables that can hold shared mutable state (map, slice,\npointer, channel type or literal, make/new/&T{}, or the result of a call) are USED outside init():\n`index` (element read or written), `range`, `field-or-method` (field access / method value), `value`\n(the variable, or a copy sharing its maps, is assigned / passed / returned / stored) -/\ndef uses : List String := [")
+	for i, n := range unames {
+		if i > 0 {
+			b.WriteString(",")
+		}
+		fmt.Fprintf(&b, "\n  %q", n)
+	}
 	b.WriteString("]\n\nend WR.Gen.C15Globals\n")
 	return b.String(), nil
+}
+
+// declText renders "type = initialiser head" of a package-level variable.
+func declText(fset *token.FileSet, typ, val ast.Expr) string {
+	show := func(e ast.Expr) string {
+		if e == nil {
+			return ""
+		}
+		var b strings.Builder
+		printer.Fprint(&b, fset, e)
+		s := strings.Join(strings.Fields(b.String()), " ")
+		if len(s) > 120 {
+			s = s[:120] + "…"
+		}
+		return s
+	}
+	v := val
+	if cl, ok := val.(*ast.CompositeLit); ok && cl.Type != nil {
+		return strings.TrimSpace(show(typ) + " = " + show(cl.Type) + "{…}")
+	}
+	return strings.TrimSpace(show(typ) + " = " + show(v))
+}
+
+// mutableDecl: can the variable hold state shared between renders?  (syntactic)
+func mutableDecl(typ, val ast.Expr) bool {
+	isRef := func(e ast.Expr) bool {
+		switch t := e.(type) {
+		case *ast.MapType, *ast.StarExpr, *ast.ChanType:
+			return true
+		case *ast.ArrayType:
+			return t.Len == nil
+		}
+		return false
+	}
+	if typ != nil && isRef(typ) {
+		return true
+	}
+	switch v := val.(type) {
+	case *ast.CompositeLit:
+		return v.Type != nil && isRef(v.Type)
+	case *ast.UnaryExpr:
+		return v.Op == token.AND
+	case *ast.CallExpr:
+		if id, ok := v.Fun.(*ast.Ident); ok && id.Obj != nil && id.Obj.Kind == ast.Fun {
+			// a package-level function of the same package building a function value etc.: still unknown
+			return true
+		}
+		return true
+	case *ast.FuncLit:
+		return false
+	}
+	return false
 }
